@@ -37,6 +37,10 @@ Swap(m1, m2) ==
 \* only the two leaves share a family of contents
 TwinsNext == Next \/ Swap("b", "c")
 
+\* variant 5: the top module of the pair is BLANK (no statement at all), the leaf gets a comment - a module may be edited to
+\* nothing and back
+V125 == {1, 2, 5}
+Body125 == [v \in V125 |-> v]
 V2 == 1..2
 Body2 == [v \in V2 |-> v]
 V3 == 1..3
